@@ -23,6 +23,12 @@ pub trait Wire<C: Suite>: Sized + Clone + PartialEq {
     fn dec(b: &[u8]) -> Result<Self, String>;
     fn to_json(&self) -> Result<String, String>;
     fn from_json(s: &str) -> Result<Self, String>;
+    /// "custom serialization": the value taken apart with its public getters, every component stored with the component's
+    /// own `serialize`, and put together again with the public constructor the library offers for this purpose.
+    /// None where the type has no such constructor.
+    fn parts(&self) -> Option<Result<Self, String>> {
+        None
+    }
 }
 
 macro_rules! wire {
@@ -43,6 +49,30 @@ macro_rules! wire {
             }
             fn from_json(s: &str) -> Result<Self, String> {
                 serde_json::from_str(s).map_err(|e| e.to_string())
+            }
+        }
+    };
+    ($ty:ty, $name:expr, prim=$prim:expr, enc=$enc:expr, json, parts=$parts:expr) => {
+        impl<C: Suite> Wire<C> for $ty {
+            const NAME: &'static str = $name;
+            const PRIMITIVE: bool = $prim;
+            const HAS_JSON: bool = true;
+            fn enc(&self) -> Result<Vec<u8>, String> {
+                #[allow(clippy::redundant_closure_call)]
+                ($enc)(self)
+            }
+            fn dec(b: &[u8]) -> Result<Self, String> {
+                <$ty>::deserialize(b).map_err(|e| format!("{e:?}"))
+            }
+            fn to_json(&self) -> Result<String, String> {
+                serde_json::to_string(self).map_err(|e| e.to_string())
+            }
+            fn from_json(s: &str) -> Result<Self, String> {
+                serde_json::from_str(s).map_err(|e| e.to_string())
+            }
+            fn parts(&self) -> Option<Result<Self, String>> {
+                #[allow(clippy::redundant_closure_call)]
+                Some(($parts)(self))
             }
         }
     };
@@ -75,6 +105,39 @@ fn fal<T, E: core::fmt::Debug, F: Fn(&T) -> Result<Vec<u8>, E>>(f: F) -> impl Fn
     move |x| f(x).map_err(|e| format!("{e:?}"))
 }
 
+fn e2s<E: core::fmt::Debug>(e: E) -> String {
+    format!("{e:?}")
+}
+fn p_id<C: Suite>(x: &Identifier<C>) -> Result<Identifier<C>, String> {
+    Identifier::<C>::deserialize(&x.serialize()).map_err(e2s)
+}
+fn p_ss<C: Suite>(x: &SigningShare<C>) -> Result<SigningShare<C>, String> {
+    SigningShare::<C>::deserialize(&x.serialize()).map_err(e2s)
+}
+fn p_vs<C: Suite>(x: &VerifyingShare<C>) -> Result<VerifyingShare<C>, String> {
+    VerifyingShare::<C>::deserialize(&x.serialize().map_err(e2s)?).map_err(e2s)
+}
+fn p_vk<C: Suite>(x: &VerifyingKey<C>) -> Result<VerifyingKey<C>, String> {
+    VerifyingKey::<C>::deserialize(&x.serialize().map_err(e2s)?).map_err(e2s)
+}
+fn p_nc<C: Suite>(x: &NonceCommitment<C>) -> Result<NonceCommitment<C>, String> {
+    NonceCommitment::<C>::deserialize(&x.serialize().map_err(e2s)?).map_err(e2s)
+}
+fn p_nonce<C: Suite>(x: &Nonce<C>) -> Result<Nonce<C>, String> {
+    Nonce::<C>::deserialize(&x.serialize()).map_err(e2s)
+}
+/// whole form
+fn p_vss_whole<C: Suite>(x: &VerifiableSecretSharingCommitment<C>) -> Result<VerifiableSecretSharingCommitment<C>, String> {
+    VerifiableSecretSharingCommitment::<C>::deserialize_whole(&x.serialize_whole().map_err(e2s)?).map_err(e2s)
+}
+/// list form
+fn p_vss_list<C: Suite>(x: &VerifiableSecretSharingCommitment<C>) -> Result<VerifiableSecretSharingCommitment<C>, String> {
+    VerifiableSecretSharingCommitment::<C>::deserialize(x.serialize().map_err(e2s)?).map_err(e2s)
+}
+fn p_scalar<C: Suite>(x: crate::alg::Sc<C>) -> Result<crate::alg::Sc<C>, String> {
+    Ok(p_ss::<C>(&SigningShare::<C>::new(x))?.to_scalar())
+}
+
 wire!(Identifier<C>, "Identifier", prim = true, enc = inf(|x: &Identifier<C>| x.serialize()), json);
 wire!(SigningKey<C>, "SigningKey", prim = true, enc = inf(|x: &SigningKey<C>| x.serialize()), nojson);
 wire!(VerifyingKey<C>, "VerifyingKey", prim = true, enc = fal(|x: &VerifyingKey<C>| x.serialize()), json);
@@ -88,16 +151,28 @@ wire!(CoefficientCommitment<C>, "CoefficientCommitment", prim = true, enc = fal(
 wire!(Delta<C>, "Delta", prim = true, enc = inf(|x: &Delta<C>| x.serialize()), json);
 wire!(Sigma<C>, "Sigma", prim = true, enc = inf(|x: &Sigma<C>| x.serialize()), json);
 wire!(Randomizer<C>, "Randomizer", prim = true, enc = inf(|x: &Randomizer<C>| x.serialize()), json);
-wire!(SigningNonces<C>, "SigningNonces", prim = false, enc = fal(|x: &SigningNonces<C>| x.serialize()), json);
-wire!(SigningCommitments<C>, "SigningCommitments", prim = false, enc = fal(|x: &SigningCommitments<C>| x.serialize()), json);
+wire!(SigningNonces<C>, "SigningNonces", prim = false, enc = fal(|x: &SigningNonces<C>| x.serialize()), json, parts = |x: &SigningNonces<C>| Ok(SigningNonces::<C>::from_nonces(p_nonce::<C>(x.hiding())?, p_nonce::<C>(x.binding())?)));
+wire!(SigningCommitments<C>, "SigningCommitments", prim = false, enc = fal(|x: &SigningCommitments<C>| x.serialize()), json, parts = |x: &SigningCommitments<C>| Ok(SigningCommitments::<C>::new(p_nc::<C>(x.hiding())?, p_nc::<C>(x.binding())?)));
 wire!(SigningPackage<C>, "SigningPackage", prim = false, enc = fal(|x: &SigningPackage<C>| x.serialize()), json);
-wire!(SecretShare<C>, "SecretShare", prim = false, enc = fal(|x: &SecretShare<C>| x.serialize()), json);
-wire!(KeyPackage<C>, "KeyPackage", prim = false, enc = fal(|x: &KeyPackage<C>| x.serialize()), json);
-wire!(PublicKeyPackage<C>, "PublicKeyPackage", prim = false, enc = fal(|x: &PublicKeyPackage<C>| x.serialize()), json);
-wire!(d1::Package<C>, "dkg::round1::Package", prim = false, enc = fal(|x: &d1::Package<C>| x.serialize()), json);
-wire!(d1::SecretPackage<C>, "dkg::round1::SecretPackage", prim = false, enc = fal(|x: &d1::SecretPackage<C>| x.serialize()), json);
-wire!(d2::Package<C>, "dkg::round2::Package", prim = false, enc = fal(|x: &d2::Package<C>| x.serialize()), json);
-wire!(d2::SecretPackage<C>, "dkg::round2::SecretPackage", prim = false, enc = fal(|x: &d2::SecretPackage<C>| x.serialize()), json);
+wire!(SecretShare<C>, "SecretShare", prim = false, enc = fal(|x: &SecretShare<C>| x.serialize()), json, parts = |x: &SecretShare<C>| Ok(SecretShare::<C>::new(p_id::<C>(x.identifier())?, p_ss::<C>(x.signing_share())?, p_vss_list::<C>(x.commitment())?)));
+wire!(KeyPackage<C>, "KeyPackage", prim = false, enc = fal(|x: &KeyPackage<C>| x.serialize()), json, parts = |x: &KeyPackage<C>| Ok(KeyPackage::<C>::new(p_id::<C>(x.identifier())?, p_ss::<C>(x.signing_share())?, p_vs::<C>(x.verifying_share())?, p_vk::<C>(x.verifying_key())?, *x.min_signers())));
+wire!(PublicKeyPackage<C>, "PublicKeyPackage", prim = false, enc = fal(|x: &PublicKeyPackage<C>| x.serialize()), json, parts = |x: &PublicKeyPackage<C>| {
+    let mut m = std::collections::BTreeMap::new();
+    for (i, v) in x.verifying_shares() {
+        m.insert(p_id::<C>(i)?, p_vs::<C>(v)?);
+    }
+    Ok(PublicKeyPackage::<C>::new(m, p_vk::<C>(x.verifying_key())?, x.min_signers()))
+});
+wire!(d1::Package<C>, "dkg::round1::Package", prim = false, enc = fal(|x: &d1::Package<C>| x.serialize()), json, parts = |x: &d1::Package<C>| Ok(d1::Package::<C>::new(p_vss_whole::<C>(x.commitment())?, Signature::<C>::deserialize(&x.proof_of_knowledge().serialize().map_err(e2s)?).map_err(e2s)?)));
+wire!(d1::SecretPackage<C>, "dkg::round1::SecretPackage", prim = false, enc = fal(|x: &d1::SecretPackage<C>| x.serialize()), json, parts = |x: &d1::SecretPackage<C>| {
+    let mut co = vec![];
+    for c in x.coefficients() {
+        co.push(p_scalar::<C>(c)?);
+    }
+    Ok(d1::SecretPackage::<C>::new(p_id::<C>(x.identifier())?, co, p_vss_whole::<C>(x.commitment())?, *x.min_signers(), *x.max_signers()))
+});
+wire!(d2::Package<C>, "dkg::round2::Package", prim = false, enc = fal(|x: &d2::Package<C>| x.serialize()), json, parts = |x: &d2::Package<C>| Ok(d2::Package::<C>::new(p_ss::<C>(x.signing_share())?)));
+wire!(d2::SecretPackage<C>, "dkg::round2::SecretPackage", prim = false, enc = fal(|x: &d2::SecretPackage<C>| x.serialize()), json, parts = |x: &d2::SecretPackage<C>| Ok(d2::SecretPackage::<C>::new(p_id::<C>(x.identifier())?, p_vss_whole::<C>(x.commitment())?, p_scalar::<C>(x.secret_share())?, *x.min_signers(), *x.max_signers())));
 
 /// VerifiableSecretSharingCommitment has two binary forms (whole / list); the whole form is used here,
 /// the list form is exercised separately in C12.
@@ -125,6 +200,8 @@ pub enum Store {
     Mem,
     Bin,
     Json,
+    /// custom serialization by components (`Wire::parts`); the binary form where the type offers no constructor
+    Parts,
 }
 
 /// "Persist and restart": encode, drop the live object, decode.
@@ -141,5 +218,13 @@ pub fn persist<C: Suite, T: Wire<C>>(x: T, how: Store) -> Result<T, String> {
             drop(x);
             T::from_json(&s)
         }
+        Store::Parts => match x.parts() {
+            Some(r) => r,
+            None => {
+                let b = x.enc()?;
+                drop(x);
+                T::dec(&b)
+            }
+        },
     }
 }
